@@ -26,3 +26,42 @@ def comments_of(result):
 
 MODES = ["sql", "redshift", "spark_sql", "mysql", "bigquery", "mssql", "databricks", "sqlite", "vertics",
          "ibm_db2", "postgres", "oracle", "hql", "snowflake", "athena"]
+
+
+def run_history(ddl, ctor, kw_list):
+    """ONE parser object run once per entry of kw_list, in order; -> list of ("ok", deep-copied result) | ("exc", type, msg).
+    Used by the relational checks to see that what run(**kw) returns does not depend on which calls were made before on the
+    same object (the result of every call is compared with a fresh object's by the caller)."""
+    import copy
+    from simple_ddl_parser import DDLParser
+    out = []
+    try:
+        p = DDLParser(ddl, **(ctor or {}))
+    except Exception as e:
+        return [("exc", type(e).__name__, str(e)[:300])] * len(kw_list)
+    for kw in kw_list:
+        try:
+            out.append(("ok", copy.deepcopy(p.run(**kw))))
+        except Exception as e:
+            out.append(("exc", type(e).__name__, str(e)[:300]))
+    return out
+
+
+def parse_via_file(ddl, ctor=None, **run_kw):
+    """the same call through the file entry point: parse_from_file(path, parser_settings=ctor, **run_kw) on a temp file"""
+    import os
+    import tempfile
+    from simple_ddl_parser import parse_from_file
+    fd, path = tempfile.mkstemp(suffix=".sql", prefix="vf_file_")
+    try:
+        with os.fdopen(fd, "w", encoding="utf-8", newline="") as f:
+            f.write(ddl)
+        try:
+            return ("ok", parse_from_file(path, parser_settings=dict(ctor) if ctor else None, **run_kw))
+        except Exception as e:
+            return ("exc", type(e).__name__, str(e)[:300])
+    finally:
+        try:
+            os.remove(path)
+        except OSError:
+            pass
